@@ -32,7 +32,7 @@ repository tests -- sub-check `oracle_selftest_captures`):
 from mc import env  # noqa: F401  (must be first)
 from mc import par, spaces
 from mc.report import Report, Acc, exc_sig
-from mc.hist import scramble
+from mc.hist import scramble, observe
 
 import datetime
 import itertools
@@ -881,6 +881,11 @@ def check_bare(kind, fv):
         return probs, p, b, calls
     bytes_differ = False
     try:
+        # looking at an object (repr, str, ==, len, hash) between two serialisations must not change it
+        observe(p, light=True)
+        observe(q, light=True)
+        if p.as_bytes() != b:
+            probs.append(("built_object_serialises_differently_after_being_looked_at", b.hex()))
         b2 = q.as_bytes()
         calls += 1
         bytes_differ = b2 != b
@@ -942,6 +947,10 @@ def check_hrnp(kind, fv, p, inner, hv):
     try:
         if h2.checksum_correct is not True:
             probs.append(("hrnp_checksum_correct_false_after_parse", hb.hex()))
+        observe(h, light=True)
+        observe(h2, light=True)
+        if h.as_bytes() != hb:
+            probs.append(("hrnp_built_object_serialises_differently_after_being_looked_at", hb.hex()))
         hb2 = h2.as_bytes()
         calls += 1
         if hb2 != hb:
@@ -1003,6 +1012,10 @@ def check_hstrp(kind, fv, p, inner, sv):
         probs.append(("hstrp_exception_parse:" + exc_sig(e), repr(e) + " bytes=" + sb.hex()))
         return probs, calls
     try:
+        observe(s, light=True)
+        observe(s2, light=True)
+        if s.as_bytes() != sb:
+            probs.append(("hstrp_built_object_serialises_differently_after_being_looked_at", f"{sb.hex()} -> {s.as_bytes().hex()}"))
         sb2 = s2.as_bytes()
         calls += 1
         if sb2 != sb:
